@@ -40,7 +40,10 @@ impl KeGroup for Curve25519 {
             .try_into()
             .ok()
             .map(MontgomeryPoint)
-            .filter(|pk| pk != &MontgomeryPoint::identity())
+            // Reject the identity and every other point of small order (on the curve or
+            // its twist): multiplying by the cofactor maps exactly those to the identity,
+            // and they would force an all-zero Diffie-Hellman output.
+            .filter(|pk| pk * Scalar::from(8u8) != MontgomeryPoint::identity())
             .ok_or(InternalError::PointError)
     }
 
